@@ -422,14 +422,17 @@ class OutgoingMessageHandler:
     ) -> None:
         """Process outgoing set messages."""
         node = gateway.nodes.get(message.node_id)
+        key = (message.node_id, message.child_id, message.message_type)
         if message_buffer and node and node.sleeping:
-            message_buffer.set_messages[
-                (message.node_id, message.child_id, message.message_type)
-            ] = message
+            message_buffer.set_messages[key] = message
 
             return
 
         await gateway.transport.write(decoded_message)
+        if message_buffer:
+            # The value just written supersedes an older value still buffered
+            # for the key, e.g. from before the node restarted.
+            message_buffer.set_messages.pop(key, None)
 
     @classmethod
     async def handle_internal(
